@@ -30,10 +30,16 @@ class Sources:
         return self._c[relpath]
 
 
-def code_fn(src: rsx.Source, fi: rsx.FnItem, name: str, pair=(), **render_kw) -> Section:
+def code_fn(src: rsx.Source, fi: rsx.FnItem, name: str, pair=(), assume: bool = False, **render_kw) -> Section:
+    """assume=True: keep the signature and the contract but do NOT verify the body
+    (#[verifier::external_body]); the section is then listed as trusted."""
     text = fi.render(**render_kw)
-    sec = Section(name=name, kind="code", origin=f"{os.path.relpath(src.path, REPO)}:{fi.line}", text=text, pair=list(pair))
+    if assume:
+        text = "#[verifier::external_body]\n" + text
+    sec = Section(name=name + (" (ASSUMED here, body not verified)" if assume else ""), kind="trusted" if assume else "code",
+                  origin=f"{os.path.relpath(src.path, REPO)}:{fi.line}", text=text, pair=list(pair))
     sec.dropped = list(fi.dropped)
+    sec.missing_hints = list(fi.missing_hints)
     return sec
 
 
@@ -73,6 +79,7 @@ class VerusFile:
     prelude: str = ""
     expect_fail: bool = False          # canary file: every `canary_*` fn must FAIL to verify
     rlimit: int = 30
+    tier: str = "quick"
 
 
 @dataclass
@@ -82,6 +89,7 @@ class KaniHarness:
     bound: str = ""           # description of the bound for kind == bounded
     covers: str = ""          # which function / contract it checks
     contract: bool = False    # proof_for_contract harness
+    tier: str = "quick"       # "quick": run in both tiers; "thorough": only in the thorough tier
 
 
 @dataclass
@@ -102,3 +110,14 @@ class Unit:
     undecided_clauses: list = field(default_factory=list)
     assumptions: list = field(default_factory=list)
     notes: list = field(default_factory=list)
+    build_errors: list = field(default_factory=list)   # lost anchors while extracting (Verus part); Kani still runs
+
+
+def guarded(fn, errors: list, default):
+    """Run an extraction step; a lost anchor makes that part undecided without
+    preventing the other back end from running."""
+    try:
+        return fn()
+    except rsx.LostAnchor as e:
+        errors.append(str(e))
+        return default
